@@ -59,6 +59,7 @@ def parseOp (w : List String) : Op :=
   | ["blockS", i, b] => .blockS (nameIdx i) (b = "1")
   | ["blockedS?", i] => .blockedSq (nameIdx i)
   | ["emptyS?", i] => .emptySq (nameIdx i)
+  | ["boolS?", i] => .boolSq (nameIdx i)
   | ["callS", i, a] => .callS (nameIdx i) (nat a)
   | ["newG", i, fl] => .newG (nameIdx i) (parseFlavour fl)
   | ["cpG", j, i] => .cpG (nameIdx j) (nameIdx i)
